@@ -390,6 +390,9 @@ fn configs(tier: Tier) -> Vec<(M, usize, usize)> {
 
 pub fn run(tier: Tier) -> Report {
     let mut rep = Report::new();
+    // the filter lives in the housekeeping arm of the event loop and must keep its memory across reloads: judged on
+    // the verdicts the real loop publishes
+    crate::realx::run_for(&mut rep, "C17", tier.is_quick());
     let cfgs = configs(tier);
     let wall = Duration::from_secs(if tier.is_quick() { 35 } else { 1500 });
     let results: Vec<engine::BfsResult> = cfgs
@@ -432,6 +435,9 @@ pub fn run(tier: Tier) -> Report {
 }
 
 pub fn replay(v: &Value) -> Result<(), String> {
+    if let Some(r) = crate::realx::replay_for("C17", v) {
+        return r;
+    }
     let mut ms = Vec::new();
     for tier in [Tier::Quick, Tier::Thorough] {
         for (m, _, _) in configs(tier) {
